@@ -45,6 +45,10 @@ def gen(tier, rnd):
             case(['G 0 0 a1', 'H 0', 'I 50', 'I 400000', 'H 0', 'I 50', 'I 700000', 'H 0', 'I 50'], mode, start)
     # a Reset that answers an OLDER notification (known finding KF_C11_RST_OLD_NOTIFICATION)
     case(['G 0 0 a1', 'H 0', 'I 50', 'P 0 rstold', 'H 0', 'I 50', 'I 1000', 'H 0', 'I 50', 'H 0', 'I 50'], 0, 0)
+    # a change still pending (its pass deferred behind an unacknowledged Confirmable notification) when another observation is registered
+    # on the same session: the deferred pass repeats the registration response (known finding KF_C11_PENDING_CHANGE_REPEATS_REGISTRATION_VALUE)
+    case(['P 1 drop', 'U 1 0 02', 'H 1 1', 'I 100000', 'H 1 1', 'H 0 1', 'U 3 0 02', 'H 0 2', 'I 10', 'H 0 1', 'I 50', 'P 1 drop', 'G 1 1 21',
+          'G 1 1 32 k=1', 'H 0 1', 'H 1 1', 'H 1 1', 'H 0 5', 'H 1 1', 'G 1 1 21', 'U 1 0 12 k=1'], 1, 0, nres=2)
     # random
     for _ in range(300 if tier == 'quick' else 20000):
         nres = rnd.randint(1, 3)
